@@ -149,3 +149,29 @@ func Run(r *ev.Run, partName string, kind string, param any, maxDepth int, maxSt
 	st.Terminals = len(terms)
 	return st
 }
+
+// Replay re-executes a recorded violation of an E2 check: the history is expanded again, event by event.
+func Replay(v *ev.Violation, x Expander) {
+	var hist []string
+	var param json.RawMessage
+	if !v.ReplayField("history", &hist) {
+		fmt.Println("  (no recorded history in this replay file)")
+		return
+	}
+	v.ReplayField("param", &param)
+	for i := 0; i < len(hist); i++ {
+		res := x(hist[:i], param)
+		if res.Err != "" {
+			fmt.Printf("  step %d: harness error %s\n", i, res.Err)
+			return
+		}
+		for _, s := range res.Succs {
+			if s.Ev == hist[i] {
+				fmt.Printf("  step %d %-14s -> state %s, %d violation(s)\n", i+1, s.Ev, s.Key, len(s.Viols))
+				for _, vv := range s.Viols {
+					fmt.Printf("      %s: %s\n", vv.Sig, vv.Msg)
+				}
+			}
+		}
+	}
+}
